@@ -219,6 +219,8 @@ def _c05_o3(W, ob):
 
 from . import vocab
 
+from . import inventory
+
 OBLIGATIONS = [
     ('C06.O1', 'broadcast cursor', 'next_spectator_frame is written only by the broadcast (+1, after the sends of its frame, '
      'once per fetched frame); frames are fetched with confirmed_inputs(cursor) and sent only while cursor <= confirmed frame.', o1),
@@ -236,4 +238,5 @@ OBLIGATIONS = [
     ('C06.C', 'lossy integer casts', 'every sign-changing cast (signed -> unsigned; NULL_FRAME is -1) and every narrowing cast to < 32 bits or from 128 bits in the crate is in range by a dominating guard, by the shape of its operand, or listed with a reason in tables/casts.json; see rules/casts.py', casts.rule),
     ('C06.M', 'must-call floor', 'the calls listed for this property in tables/must_call.json are made on every path from the entry of their function to a normal return (interprocedural must-call): a new early return, fast path or extra condition in front of one of them is reported; see rules/mustcall.py', mustcall.rule_for('C06')),
     ('C06.V', 'no unreviewed condition in the pinned helpers', 'for each helper whose body this property\'s rules pin (tables/condition_terms.json), the terms its path conditions are built from (fields, parameters, call results -- no constants, operators or local names) are a subset of the reviewed vocabulary: one more `if` in front of a pinned result (a lock that may time out, "only while an endpoint is running") is reported; see rules/vocab.py', vocab.rule_for('C06')),
+    ('C06.S', 'state inventory', 'every field of the structs this property\'s rules read (tables/state.json) is known, and is written only by its reviewed writers (or helpers only they call): a new field is new state across calls -- a cache, a flag, a stored deadline -- that nothing has shown to stay in step; a new writer is a second place that resets, re-arms or moves something; see rules/inventory.py', inventory.state_rule_for('C06')),
 ]
